@@ -83,3 +83,55 @@ Example C13_day_rollover : tt_timerange 30 (99364, 2200) (99365, 100) 100 2400
 Proof. vm_compute. reflexivity. Qed.
 Example C13_year_rollover_stuck : tt_timerange 5000 (99365, 2200) (1, 100) 100 2400 = None.
 Proof. vm_compute. reflexivity. Qed.
+
+(* ======================================================================================================
+   CAMx one3d family (one3d / humidity / vertical_diffusivity), Model/One3d.v: the record reader's seek arithmetic
+   TRANSLATED from camxfiles/one3d/Read.py (the o3r_ definitions of Gen/Camx.v), its probing hand-modelled (o3r_probe)
+   ====================================================================================================== *)
+From PNC Require Import Model.One3d Proofs.One3dProofs.
+
+(* byte position of (date, time, layer) = position of that record in the specification layout *)
+Theorem C13_one3d_recordposition_is_spec_offset : forall (self : o3r_self) ri t k d tm,
+  o3r_data_start_byte self = 0 -> o3r_padded_size self = 4 * ri ->
+  Z.quot (tt_timediff (o3r_start_date self, o3r_start_time self) (d, tm) 2400) (o3r_time_step self) = t ->
+  o3r_recordposition self d tm k = o_spec_record_offset (o3r_nlayers self) ri t k.
+Proof. exact o3r_recordposition_spec. Qed.
+Print Assumptions C13_one3d_recordposition_is_spec_offset.
+
+(* BOTH READERS PRESENT THE SAME CELLS, for every well-formed file of any size: the cells the record reader unpacks
+   at the position its translated arithmetic computes for (step |S1|, layer |L1|+1), in a reader state that agrees
+   with the file, are the cells the Memmap model presents there *)
+Theorem C13_one3d_readers_agree_on_data : forall c (self : o3r_self) S1 s S2 L1 lay L2 d tm, o_wf c = true ->
+  o_steps c = S1 ++ s :: S2 -> os_lays s = L1 ++ lay :: L2 ->
+  o3r_nlayers self = o_nz c -> o3r_data_start_byte self = 0 -> o3r_padded_size self = 4 * o_rec_words c ->
+  Z.quot (tt_timediff (o3r_start_date self, o3r_start_time self) (d, tm) 2400) (o3r_time_step self)
+    = Z.of_nat (length S1) ->
+  cells_at (o_enc c) (o3r_recordposition self d tm (Z.of_nat (length L1) + 1)) (o_nx c * o_ny c)
+  = nth (length L1) (nth (length S1) (ov_data (o_view_of c)) []) [].
+Proof. exact o_readers_agree. Qed.
+Print Assumptions C13_one3d_readers_agree_on_data.
+
+(* the reader state does agree with the file: the (hand-modelled) probing of __readheader/__gettimestep on the record
+   stamps of a file with two or more steps and a changing stamp finds the layer count, the padded record size and the
+   time step ... *)
+Theorem C13_one3d_probe_finds_layout : forall mk d0 d1 dts nz, (1 <= nz)%nat -> stamp_eqb d1 d0 = false ->
+  o3r_probe mk (flat_map (fun d => repeat d nz) (d0 :: d1 :: dts)) =
+  Some {| o3r_start_date := fst d0; o3r_start_time := snd d0; o3r_time_step := tt_timediff d0 d1 2400;
+          o3r_nlayers := Z.of_nat nz; o3r_padded_size := mk + 8; o3r_data_start_byte := 0 |}.
+Proof. exact o3r_probe_two_steps. Qed.
+Print Assumptions C13_one3d_probe_finds_layout.
+
+(* ... and on a single-step file it reads past the end: the record reader cannot be constructed either (both readers
+   refuse single-step files: known finding region 11) *)
+Theorem C13_one3d_probe_single_step : forall mk d0 nz, o3r_probe mk (flat_map (fun d => repeat d nz) [d0]) = None.
+Proof. exact o3r_probe_single_step. Qed.
+Print Assumptions C13_one3d_probe_single_step.
+
+Example C13_one3d_readers_agree_inhabited :
+  let c := {| o_nx := 2; o_ny := 1; o_nz := 2;
+              o_steps := [OStep 1120403456 4001 [[11; 12]; [13; 14]]; OStep 1128792064 4001 [[21; 22]; [23; 24]]] |} in
+  let self := {| o3r_start_date := 4001; o3r_start_time := 100; o3r_time_step := 100; o3r_nlayers := 2;
+                 o3r_padded_size := 24; o3r_data_start_byte := 0 |} in
+  o_wf c = true /\ o3r_probe 16 [(4001, 100); (4001, 100); (4001, 200); (4001, 200)] = Some self
+  /\ o3r_recordposition self 4001 200 2 = 72 /\ cells_at (o_enc c) 72 2 = [23; 24].
+Proof. vm_compute. repeat split; reflexivity. Qed.
